@@ -516,10 +516,12 @@ def legacy_max(enc):
     return 0xFFFF if enc in ("UTF-8", "UTF-16") else 0xFF if enc == "ISO-8859-1" else 0x7F
 
 
-def written_raw(c, enc, which):
-    """is this character copied to the output as itself (as opposed to a character reference)?"""
+def written_raw(c, enc, which, ctx="T"):
+    """is this character copied to the output as itself (as opposed to a character reference)?  In comments and PIs
+    FormatterToXML copies what the encoding has (canTranscodeTo) and refuses the rest; elsewhere everything above
+    m_maxCharacter becomes a reference."""
     if which == "legacy":
-        return c <= legacy_max(enc)
+        return c <= legacy_max(enc) or (ctx in "CP" and encodable(c, enc))
     return enc in ("UTF-8", "UTF-16") or encodable(c, enc)
 
 
@@ -527,9 +529,9 @@ def restricted11(c):
     return c in _RESTRICTED11
 
 
-def lineend_norm(v, ver, enc, which, to=10):
+def lineend_norm(v, ver, enc, which, to=10, ctx="T"):
     out, i, changed = [], 0, False
-    raw = lambda c: written_raw(c, enc, which)
+    raw = lambda c: written_raw(c, enc, which, ctx)
     while i < len(v):
         c = v[i]
         if c == 13 and raw(c):
@@ -569,34 +571,48 @@ def refs(c, which):
     return [ord(x) for x in "&#%d;" % c]
 
 
-def predicted_deviation(ev):
-    """the tree the known tree-changing deviations predict for this script, and the keys that changed something"""
+SHARED = ("rawLineEndInCdataSection", "rawLineEndInCommentOrPI", "charRefInCommentOrPI", "loneSurrogateWritten", "nonCharacterWritten")
+
+
+def class_key(key, legacy):
+    """FormatterToXML shares these classes with the factory serializer; it is listed (and repaired) separately"""
+    return "legacy" + key[0].upper() + key[1:] if legacy and key in SHARED else key
+
+
+def predicted_deviation(ev, known):
+    """the tree the known tree-changing deviations predict for this script, and the keys that changed something.
+    Only classes that are still open (status "known") are applied: a repaired class predicts nothing, so its
+    recurrence matches no prediction and is reported as a violation."""
     enc, ver, which = ev["enc"], ev["ver"], "legacy" if ev["which"] == "legacy" else "new"
+    on = lambda key: class_key(key, which == "legacy") in known
     keys, script = [], []
     for n in ev["script"]:
         n = dict(n)
         v = unrle(n["v"])
         if n["k"] == "D":
-            if which == "legacy":                     # writeNormalizedChars turns CR LF into one newline first
-                w, i = [], 0
-                while i < len(v):
-                    if v[i] == 13 and i + 1 < len(v) and v[i + 1] == 10:
-                        w.append(10); i += 2; keys.append("rawLineEndInCdataSection")
-                    else:
-                        w.append(v[i]); i += 1
-                v = w
-            v2, ch = lineend_norm(v, ver, enc, which)
-            if ch:
-                keys.append("rawLineEndInCdataSection")
-            n["v"] = rle(v2)
+            if on("rawLineEndInCdataSection"):
+                if which == "legacy":                     # writeNormalizedChars turns CR LF into one newline first
+                    w, i = [], 0
+                    while i < len(v):
+                        if v[i] == 13 and i + 1 < len(v) and v[i + 1] == 10:
+                            w.append(10); i += 2; keys.append("rawLineEndInCdataSection")
+                        else:
+                            w.append(v[i]); i += 1
+                    v = w
+                v2, ch = lineend_norm(v, ver, enc, which)
+                if ch:
+                    keys.append("rawLineEndInCdataSection")
+                n["v"] = rle(v2)
         elif n["k"] in ("C", "P"):
-            v2, ch = lineend_norm(v, ver, enc, which)
-            if ch:
-                keys.append("rawLineEndInCommentOrPI")
-                if n["k"] == "P":                     # a line end the parser made at the start of PI data is dropped as white space
-                    while v2 and v2[0] in (9, 10, 32):
-                        v2 = v2[1:]
-            if enc not in ("UTF-8", "UTF-16"):
+            v2 = v
+            if on("rawLineEndInCommentOrPI"):
+                v2, ch = lineend_norm(v, ver, enc, which, ctx=n["k"])
+                if ch:
+                    keys.append("rawLineEndInCommentOrPI")
+                    if n["k"] == "P":                     # a line end the parser made at the start of PI data is dropped as white space
+                        while v2 and v2[0] in (9, 10, 32):
+                            v2 = v2[1:]
+            if enc not in ("UTF-8", "UTF-16") and on("charRefInCommentOrPI"):
                 v3 = []
                 for c in v2:
                     if not written_raw(c, enc, which) and not (which == "new" and 0xD800 <= c <= 0xDBFF):
@@ -607,9 +623,9 @@ def predicted_deviation(ev):
                         v3.append(c)
                 v2 = v3
             n["v"] = rle(v2)
-        elif which == "legacy" and ver == "1.1" and n["k"] == "T" and enc in ("UTF-8", "UTF-16") and 0x2028 in v:
+        elif which == "legacy" and ver == "1.1" and n["k"] == "T" and enc in ("UTF-8", "UTF-16") and 0x2028 in v and on("legacyXml11RestrictedRawInTextOrAttr"):
             n["v"] = rle([10 if c == 0x2028 else c for c in v]); keys.append("legacyXml11RestrictedRawInTextOrAttr")
-        if which == "legacy" and ver == "1.1" and n["k"] == "S" and enc in ("UTF-8", "UTF-16"):
+        if which == "legacy" and ver == "1.1" and n["k"] == "S" and enc in ("UTF-8", "UTF-16") and on("legacyXml11RestrictedRawInTextOrAttr"):
             a2 = []
             for a in n["a"]:
                 av = unrle(a[1])
@@ -637,11 +653,8 @@ def triage(ev, known):
     def has(ctxs, pred):
         return any(ctx in ctxs and any(pred(c) for c in v) for ctx, v in strs)
 
-    SHARED = ("rawLineEndInCdataSection", "rawLineEndInCommentOrPI", "charRefInCommentOrPI", "loneSurrogateWritten", "nonCharacterWritten")
-
     def hit(key):
-        if legacy and key in SHARED:            # FormatterToXML shares these classes; it is listed (and repaired) separately
-            key = "legacy" + key[0].upper() + key[1:]
+        key = class_key(key, legacy)
         return key if key in known else None
 
     if ev["status"] == "error":
@@ -675,8 +688,8 @@ def triage(ev, known):
                     if any(not encodable(nolf[i], enc) and nolf[i + 1:i + 4] == [0x5D, 0x5D, 0x3E] for i in range(len(nolf))) and "invalid token" in perr:
                         return hit("cdataEndAfterUnencodable")
         else:
-            if has("DCP", lambda c: (c < 0x20 and c not in (9, 10, 13)) or (ver == "1.1" and restricted11(c) and c <= legacy_max(enc))) \
-                    and ("invalid token" in perr or "restricted character" in perr):
+            if any(ctx in "DCP" and any((c < 0x20 and c not in (9, 10, 13)) or (ver == "1.1" and restricted11(c) and written_raw(c, enc, "legacy", ctx)) for c in v)
+                   for ctx, v in strs) and ("invalid token" in perr or "restricted character" in perr):
                 return hit("legacyControlRawInCdataCommentPI")
             if ver == "1.1" and has("TA", lambda c: c == 0x9F and legacy_max(enc) >= 0x9F) and "restricted character U+009F" in perr:
                 return hit("legacyXml11RestrictedRawInTextOrAttr")
@@ -686,7 +699,7 @@ def triage(ev, known):
                 return hit("legacyNameCharReplaced")
         return None
     if ev.get("tvmsg", "").startswith("the output parses back"):
-        want, keys = predicted_deviation(ev)
+        want, keys = predicted_deviation(ev, known)
         if keys and want == tree_of_event(ev["tree"]):
             return hit(keys[0])
         if not legacy and other:
@@ -732,8 +745,8 @@ def model_check(res, tier, wd):
         cfg = os.path.join(wd, "wb_%s.cfg" % fam)
         open(cfg, "w").write(wb_cfg(fam, 8 if quick else 12, (4, 5, 9), "View"))
         jobs.append(("MC_WriterBuffer/%s (buffer %d, <= %d operations)" % (fam, MODEL_BUF, 8 if quick else 12), MC_WB, cfg))
-    runs = [("StrSpec", 2 if quick else 3, ENCODINGS, "FullAlphabet", ["SpecSound", "ImplConforms"]),
-            ("StrSpec", 4 if quick else 5, ["UTF-8", "ISO-8859-1"], "SeqAlphabet", ["SpecSound", "ImplConforms"]),
+    runs = [("StrSpec", 2 if quick else 3, ENCODINGS, "FullAlphabet", ["SpecSound", "ImplConforms", "LegacyConformsInv"]),
+            ("StrSpec", 4 if quick else 5, ["UTF-8", "ISO-8859-1"], "SeqAlphabet", ["SpecSound", "ImplConforms", "LegacyConformsInv"]),
             ("TokSpec", 2 if quick else 3, ["UTF-8", "ISO-8859-1"], "FullAlphabet" if quick else "SeqAlphabet", ["SpecComplete"])]
     for i, (spec, ml, encs, alpha, invs) in enumerate(runs):
         cfg = os.path.join(wd, "ser_%d.cfg" % i)
